@@ -231,7 +231,10 @@ Definition kclasses (d : dworld) (gh : ghost) (o : op) : list known :=
                     else kwhen (rename_ok t f g
                                 && (mem_ino i (gdirty gh)
                                     || match nget (names t) g with Some (EFile j) => mem_ino j (gdirty gh) | _ => false end
-                                    || in_pren i (gpren gh)
+                                    || existsb (fun r => let '(j, f0, g0) := r in
+                                                 (j =? i) && negb (match parent g with
+                                                                   | Some q => child_of f0 q && child_of g0 q
+                                                                   | None => false end)) (gpren gh)
                                     || mem_path g (ggone gh) || mem_path g (grt gh))) NRenameFile
                 | Some EDir => [NRenameDir]
                 | None => []
@@ -428,7 +431,7 @@ Definition hknown_enc (nhosts bs : nat) (l : list (nat * op)) : list N :=
    Besides the known classes those theorems exclude: create_dir_all / remove_dir_all; renames between two
    different directories once one of the two directories is synced while the rename is unflushed (a rename that
    a crash meets unflushed is covered); any creation of a file at a name a file left since the last crash (FsSafe.KRecreate -
-   the known finding Recreate above is narrower); a rename onto a name a directory was removed from since the
+   the known finding Recreate above is narrower); a rename of a file still under an unflushed rename (chained renames: the known finding RenameFile (d) covers only chains that leave the directory); a rename onto a name a directory was removed from since the
    last crash; a crash while a durable entry has a non-durable ancestor. *)
 Definition c07r_op (o : op) : bool :=
   match o with MkdirAll _ | RmdirAll _ => false | _ => true end.
@@ -440,7 +443,7 @@ Definition extra_excluded (d : dworld) (gh : ghost) (o : op) : bool :=
   | Spit p _ _ => match nget (names (dw d)) p with None => mem_path p (ggone gh) | _ => false end
   | Rename f r =>
       match nget (names (dw d)) f with
-      | Some (EFile _) => rename_ok (dw d) f r && mem_path r (ggdirs gh)
+      | Some (EFile i) => rename_ok (dw d) f r && (mem_path r (ggdirs gh) || in_pren i (gpren gh))
       | _ => false
       end
   | SyncDir p =>
